@@ -313,6 +313,39 @@ fn run_pair(c: &PairCase) -> Outcome {
         Err(e) => return Outcome::bad("C14:pair:sign-error", e.to_string()),
     };
     let same = canon(&c.s) == canon(&c.t);
+    // the same signature carried in front of a literal packet holding t (prefixed-signature
+    // message): the inline verification path has its own hasher
+    {
+        use pgp::ser::Serialize as _;
+        use std::io::Read as _;
+        let mut lit = vec![b'b', 0, 0, 0, 0, 0];
+        lit.extend_from_slice(&c.t);
+        let stream = [
+            crate::reference::frame::frame_min(2, &sig.signature.to_bytes().unwrap_or_default()),
+            crate::reference::frame::frame_min(11, &lit),
+        ]
+        .concat();
+        let inline = pgp::composed::Message::from_bytes(&stream[..]).map_err(|e| e.to_string()).and_then(|mut m| {
+            let mut sink = Vec::new();
+            m.read_to_end(&mut sink).map_err(|e| e.to_string())?;
+            m.verify(&pubkey).map(|_| ()).map_err(|e| e.to_string())
+        });
+        match (same, inline) {
+            (true, Err(e)) => {
+                return Outcome::bad(
+                    "C14:pair:prefixed-message:equivalent-rejected",
+                    format!("text signature over \"{}\" in front of a literal packet holding the equivalent \"{}\" does not verify: {e}", esc(&c.s), esc(&c.t)),
+                )
+            }
+            (false, Ok(())) => {
+                return Outcome::bad(
+                    "C14:pair:prefixed-message:different-accepted",
+                    format!("text signature over \"{}\" verifies inline over the non-equivalent \"{}\"", esc(&c.s), esc(&c.t)),
+                )
+            }
+            _ => {}
+        }
+    }
     let res = sig.verify(&pubkey, &c.t);
     match (same, res) {
         (true, Ok(())) => Outcome::ok("equivalent:accepted"),
@@ -518,7 +551,7 @@ pub fn check(ctx: &Ctx) {
     ctx.run_space(
         "sign_verify_pairs",
         true,
-        &format!("all ordered pairs (s,t) of strings of length <= {lq}: DetachedSignature::sign_text_data over s verifies over t iff canon(s) = canon(t)"),
+        &format!("all ordered pairs (s,t) of strings of length <= {lq}: DetachedSignature::sign_text_data over s verifies over t - detached, and carried in front of a literal packet holding t (Message::verify) - iff canon(s) = canon(t)"),
         pairs.into_par_iter(),
         run_pair,
     );
